@@ -19,83 +19,241 @@ Definition checker_complete_full (ck : checker) : Prop :=
     in_domain t o rows cols times = true ->
     spec_ok t o rows cols times = true -> check ck (Some t) (Some o) rows cols times = Accept.
 
-(* ---- witnesses against the comparisons as coded *)
+(* ---- witnesses against the comparisons of the tree BEFORE the repair (legacy_checker): what the
+   full statements exclude *)
 Definition full5 : sl := (Some 0, Some 5).
 Definition open_sl : sl := (None, None).
 
-(* target rows 0..5, result rows 2..5 (3 rows) on a 5 x 5 target: accepted *)
+(* target rows 0..5, result rows 2..5 (3 rows) on a 5 x 5 target: was accepted *)
 Definition w_sound_t := FR2 full5 full5.
 Definition w_sound_o := FR3 open_sl (Some 2, Some 5) full5.
-(* target rows 0..5, result rows 3..8 (5 rows): rejected *)
-Definition w_compl_t := FR2 full5 full5.
-Definition w_compl_o := FR3 open_sl (Some 3, Some 8) full5.
-(* no range declared at all (what an empty configuration entry produces): TypeError *)
+(* target rows 0..3, result rows 2..5 (3 rows each): was rejected *)
+Definition w_compl_t := FR2 (Some 0, Some 3) full5.
+Definition w_compl_o := FR3 open_sl (Some 2, Some 5) full5.
+(* no range declared at all (what an empty configuration entry produces): was a TypeError *)
 Definition w_absent_t := FR2 open_sl open_sl.
 Definition w_absent_o := FR3 open_sl open_sl open_sl.
 
-Lemma coded_sound_refuted : ~ checker_sound_full coded_checker.
+Lemma legacy_sound_refuted : ~ checker_sound_full legacy_checker.
 Proof.
   intro H. specialize (H w_sound_t w_sound_o 5 5 None eq_refl eq_refl). vm_compute in H. discriminate.
 Qed.
 
-Lemma coded_complete_refuted : ~ checker_complete_full coded_checker.
+Lemma legacy_complete_refuted : ~ checker_complete_full legacy_checker.
 Proof.
   intro H. specialize (H w_compl_t w_compl_o 5 5 None eq_refl eq_refl). vm_compute in H. discriminate.
 Qed.
 
-Lemma coded_absent_crashes :
+Lemma legacy_absent_crashes :
   in_domain w_absent_t w_absent_o 5 5 None = true /\
   spec_ok w_absent_t w_absent_o 5 5 None = true /\
-  check coded_checker (Some w_absent_t) (Some w_absent_o) 5 5 None = Crash.
+  check legacy_checker (Some w_absent_t) (Some w_absent_o) 5 5 None = Crash.
 Proof. vm_compute. auto. Qed.
 
-(* ---- the strongest true restriction: all compared stops given, equal starts *)
-Ltac kill_opts :=
-  repeat match goal with
-         | x : option Z |- _ => destruct x; cbn in *; try discriminate
-         end.
+(* ---- the comparisons as coded: evaluation of the building blocks *)
+Definition len_eqb (n : Z) (t o : sl) : bool :=
+  let '(ts, te) := resolve n t in let '(os, oe) := resolve n o in te - ts =? oe - os.
 
-Lemma coded_partial : forall t o rows cols times,
-  in_domain t o rows cols times = true -> anchored t o = true ->
-  (check coded_checker (Some t) (Some o) rows cols times = Accept <-> spec_ok t o rows cols times = true).
+Lemma run_guards_app : forall e a b,
+  run_guards e (a ++ b) = match run_guards e a with Some r => Some r | None => run_guards e b end.
 Proof.
-  intros t o rows cols times Hd Ha.
-  destruct t as [[ts1 te1] [ts2 te2] | [ts0 te0] [ts1 te1] [ts2 te2]];
-    destruct o as [[os1 oe1] [os2 oe2] | [os0 oe0] [os1 oe1] [os2 oe2]];
-    try (cbn in Ha; discriminate).
-  - (* 2D target *)
-    destruct te1, te2, oe1, oe2; try (cbn in Ha; rewrite ?andb_false_r in Ha; discriminate).
-    unfold in_domain in Hd. cbn in Hd, Ha. unfold same_start, dflt in Ha; cbn in Ha.
-    destruct os0, oe0, times; cbn in Hd;
-    unfold check, coded_checker, spec_ok, dim_ok, resolve; cbn;
-    (destruct (z =? z1) eqn:E1; cbn; [|split; [discriminate | intro; exfalso; destruct ts1, ts2, os1, os2; cbn in *; lia]]);
-    (destruct (z0 =? z2) eqn:E2; cbn; [|split; [discriminate | intro; exfalso; destruct ts1, ts2, os1, os2; cbn in *; lia]]);
-    (destruct (z <=? rows) eqn:E3; cbn; [|split; [discriminate | intro; exfalso; destruct ts1, ts2, os1, os2; cbn in *; lia]]);
-    (destruct (z0 <=? cols) eqn:E4; cbn; [|split; [discriminate | intro; exfalso; destruct ts1, ts2, os1, os2; cbn in *; lia]]);
-    (split; [intros _ | reflexivity]);
-    destruct ts1, ts2, os1, os2; cbn in *; lia.
-  - (* 3D target *)
-    destruct te0, te1, te2, oe0, oe1, oe2; try (cbn in Ha; rewrite ?andb_false_r in Ha; discriminate).
-    unfold in_domain in Hd. cbn in Hd, Ha. unfold same_start, dflt in Ha; cbn in Ha.
-    destruct times as [n|]; cbn in Hd;
-    unfold check, coded_checker, spec_ok, dim_ok, resolve; cbn.
-    + (destruct (z =? z2) eqn:E0; cbn;
-        [|split; [discriminate | intro; exfalso; destruct ts0, ts1, ts2, os0, os1, os2; cbn in *; lia]]);
-      (destruct (z0 =? z3) eqn:E1; cbn;
-        [|split; [discriminate | intro; exfalso; destruct ts0, ts1, ts2, os0, os1, os2; cbn in *; lia]]);
-      (destruct (z1 =? z4) eqn:E2; cbn;
-        [|split; [discriminate | intro; exfalso; destruct ts0, ts1, ts2, os0, os1, os2; cbn in *; lia]]);
-      (destruct (z0 <=? rows) eqn:E3; cbn;
-        [|split; [discriminate | intro; exfalso; destruct ts0, ts1, ts2, os0, os1, os2; cbn in *; lia]]);
-      (destruct (z1 <=? cols) eqn:E4; cbn;
-        [|split; [discriminate | intro; exfalso; destruct ts0, ts1, ts2, os0, os1, os2; cbn in *; lia]]);
-      (destruct (z <=? n) eqn:E5; cbn;
-        [|split; [discriminate | intro; exfalso; destruct ts0, ts1, ts2, os0, os1, os2; cbn in *; lia]]);
-      (split; [intros _ | reflexivity]);
-      destruct ts0, ts1, ts2, os0, os1, os2; cbn in *; lia.
-    + destruct (z =? z2); cbn; [|split; discriminate].
-      destruct (z0 =? z3); cbn; [|split; discriminate].
-      destruct (z1 =? z4); cbn; [|split; discriminate].
-      destruct (z0 <=? rows); cbn; [|split; discriminate].
-      destruct (z1 <=? cols); cbn; split; discriminate.
+  intros e a b. induction a as [|g a IH]; [reflexivity|].
+  cbn [app run_guards]. destruct (run_guard e g); [reflexivity | exact IH].
+Qed.
+
+Lemma tgt_block_run : forall e d b s n,
+  get_sl (e_tgt e) d = Some s -> bound_pv e b = PInt n ->
+  run_guards e (tgt_block d b) = if sl_inside n s then None else Some Reject.
+Proof.
+  intros e d b [a z] n Hs Hb. unfold tgt_block, sl_inside, resolve.
+  cbn [run_guards run_guard pre_holds eval side_range fst snd]. rewrite Hs. cbn [fst snd].
+  destruct a as [a|], z as [z|]; cbn [dflt]; rewrite ?Hb; cbn [cmp_eval xorb negb];
+    repeat match goal with |- context [?x <=? ?y] => destruct (x <=? y) end; reflexivity.
+Qed.
+
+Lemma len_guard_run : forall e p d b st so o n,
+  pre_holds e p = true -> get_sl (e_tgt e) d = Some st -> e_out e = Some o -> get_sl o d = Some so ->
+  bound_pv e b = PInt n ->
+  run_guard e (len_guard p d b) = if len_eqb n st so then None else Some Reject.
+Proof.
+  intros e p d b [ta tz] [oa oz] o n Hp Hs Ho Hso Hb. unfold len_guard, elen, len_eqb, resolve.
+  cbn [run_guard eval side_range fst snd]. rewrite Hp, Hs, Ho, Hso. cbn [fst snd].
+  destruct ta, tz, oa, oz; cbn [dflt]; rewrite ?Hb; cbn [cmp_eval xorb];
+    match goal with |- context [?x =? ?y] => destruct (x =? y) end; reflexivity.
+Qed.
+
+Lemma len_guard_skip : forall e d b, pre_holds e PBoth3D = false -> run_guard e (len_guard PBoth3D d b) = None.
+Proof. intros e d b H. unfold len_guard. cbn [run_guard]. rewrite H. reflexivity. Qed.
+
+(* the verdict of the checker as a boolean function of the ranges *)
+Definition accb (t o : fitrange) (rows cols : Z) (times : option Z) : bool :=
+  match t, o with
+  | FR2 tr tc, FR3 _ orow ocol =>
+      sl_inside rows tr && sl_inside cols tc && len_eqb rows tr orow && len_eqb cols tc ocol
+  | FR3 tm tr tc, FR3 ot orow ocol =>
+      match times with
+      | Some n => sl_inside rows tr && sl_inside cols tc && sl_inside n tm
+                  && len_eqb n tm ot && len_eqb rows tr orow && len_eqb cols tc ocol
+      | None => false
+      end
+  | _, FR2 _ _ => false
+  end.
+
+Lemma check_char : forall t o rows cols times,
+  is3d o = true ->
+  (check coded_checker (Some t) (Some o) rows cols times = Accept <-> accb t o rows cols times = true).
+Proof.
+  intros t o rows cols times Ho.
+  destruct o as [? ? | ot orow ocol]; [discriminate|]. clear Ho.
+  unfold check, coded_checker. cbn [target_first out_guards check2d check3d].
+  set (e := {| e_tgt := t; e_out := Some (FR3 ot orow ocol); e_rows := rows; e_cols := cols; e_times := times |}).
+  destruct t as [tr tc | tm tr tc]; cbn [is3d accb].
+  - (* 2-D target range *)
+    rewrite run_guards_app.
+    rewrite (tgt_block_run e DRow BRows tr rows eq_refl eq_refl).
+    rewrite (tgt_block_run e DCol BCols tc cols eq_refl eq_refl).
+    cbn [run_guards].
+    rewrite (len_guard_skip e DTime BTimes eq_refl).
+    rewrite (len_guard_run e PAlways DRow BRows tr orow _ rows eq_refl eq_refl eq_refl eq_refl eq_refl).
+    rewrite (len_guard_run e PAlways DCol BCols tc ocol _ cols eq_refl eq_refl eq_refl eq_refl eq_refl).
+    destruct (sl_inside rows tr), (sl_inside cols tc), (len_eqb rows tr orow), (len_eqb cols tc ocol);
+      cbn; split; intro K; try reflexivity; discriminate.
+  - (* 3-D target range *)
+    rewrite !run_guards_app.
+    rewrite (tgt_block_run e DRow BRows tr rows eq_refl eq_refl).
+    rewrite (tgt_block_run e DCol BCols tc cols eq_refl eq_refl).
+    destruct times as [n|].
+    + rewrite (tgt_block_run e DTime BTimes tm n eq_refl eq_refl).
+      cbn [run_guards run_guard].
+      rewrite (len_guard_run e PBoth3D DTime BTimes tm ot _ n eq_refl eq_refl eq_refl eq_refl eq_refl).
+      rewrite (len_guard_run e PAlways DRow BRows tr orow _ rows eq_refl eq_refl eq_refl eq_refl eq_refl).
+      rewrite (len_guard_run e PAlways DCol BCols tc ocol _ cols eq_refl eq_refl eq_refl eq_refl eq_refl).
+      unfold e; cbn [e_times].
+      destruct (sl_inside rows tr), (sl_inside cols tc), (sl_inside n tm), (len_eqb n tm ot),
+        (len_eqb rows tr orow), (len_eqb cols tc ocol); cbn; split; intro K; try reflexivity; discriminate.
+    + cbn [run_guards run_guard]. unfold e at 3 4; cbn [e_times].
+      destruct (sl_inside rows tr), (sl_inside cols tc); cbn; split; discriminate.
+Qed.
+
+(* ---- specification vs. boolean verdict, one dimension *)
+Lemma dim_ok_char : forall n t o,
+  wf_sl o = true -> (dim_ok n t o = true <-> sl_inside n t = true /\ len_eqb n t o = true).
+Proof.
+  intros n [ta tz] [oa oz] Hw. unfold dim_ok, sl_inside, len_eqb, resolve. cbn [fst snd].
+  destruct ta, tz, oa, oz; cbn [dflt] in *; cbn in Hw; lia.
+Qed.
+
+Lemma spec_ok_char : forall t o rows cols times,
+  in_domain t o rows cols times = true ->
+  (spec_ok t o rows cols times = true <-> accb t o rows cols times = true).
+Proof.
+  intros t o rows cols times Hd. unfold in_domain in Hd.
+  destruct o as [? ? | ot orow ocol]; [cbn in Hd; rewrite ?andb_false_r in Hd; discriminate|].
+  assert (Hwo : wf_sl ot = true /\ wf_sl orow = true /\ wf_sl ocol = true).
+  { cbn [wf_range is3d] in Hd. lia. }
+  destruct Hwo as [W0 [W1 W2]].
+  destruct t as [tr tc | tm tr tc]; cbn [spec_ok accb].
+  - pose proof (dim_ok_char rows tr orow W1). pose proof (dim_ok_char cols tc ocol W2).
+    destruct (dim_ok rows tr orow), (dim_ok cols tc ocol), (sl_inside rows tr), (sl_inside cols tc),
+      (len_eqb rows tr orow), (len_eqb cols tc ocol); cbn; intuition congruence.
+  - destruct times as [n|]; [|split; discriminate].
+    pose proof (dim_ok_char n tm ot W0).
+    pose proof (dim_ok_char rows tr orow W1). pose proof (dim_ok_char cols tc ocol W2).
+    destruct (dim_ok n tm ot), (dim_ok rows tr orow), (dim_ok cols tc ocol), (sl_inside n tm), (sl_inside rows tr),
+      (sl_inside cols tc), (len_eqb n tm ot), (len_eqb rows tr orow), (len_eqb cols tc ocol); cbn; intuition congruence.
+Qed.
+
+(* ---- the full statements hold for the comparisons as coded *)
+Theorem coded_sound : checker_sound_full coded_checker.
+Proof.
+  intros t o rows cols times Hd H. apply (spec_ok_char _ _ _ _ _ Hd). apply check_char; [|exact H].
+  unfold in_domain in Hd. destruct (is3d o); [reflexivity | rewrite ?andb_false_r in Hd; cbn in Hd; lia].
+Qed.
+
+Theorem coded_complete : checker_complete_full coded_checker.
+Proof.
+  intros t o rows cols times Hd H. apply check_char.
+  - unfold in_domain in Hd. destruct (is3d o); [reflexivity | rewrite ?andb_false_r in Hd; cbn in Hd; lia].
+  - apply (spec_ok_char _ _ _ _ _ Hd). exact H.
+Qed.
+
+(* absent ranges (the defaults built by run_calibration) are accepted *)
+Lemma coded_absent_accepted :
+  in_domain w_absent_t w_absent_o 5 5 None = true /\
+  spec_ok w_absent_t w_absent_o 5 5 None = true /\
+  check coded_checker (Some w_absent_t) (Some w_absent_o) 5 5 None = Accept.
+Proof. vm_compute. auto. Qed.
+
+(* ---- fit ranges that exceed the size they are checked against are refused: whatever the result
+   range, an accepted (well-formed) target range lies inside rows x cols (x times) *)
+Definition range_inside (t : fitrange) (rows cols : Z) (times : option Z) : bool :=
+  match t with
+  | FR2 tr tc => sl_inside rows tr && sl_inside cols tc
+  | FR3 tm tr tc => match times with
+                    | Some n => sl_inside n tm && sl_inside rows tr && sl_inside cols tc
+                    | None => false
+                    end
+  end.
+
+Lemma run_guards_not_accept : forall e gs, run_guards e gs <> Some Accept.
+Proof.
+  intros e gs. induction gs as [|g r IH]; cbn; [discriminate|].
+  destruct (run_guard e g) as [x|] eqn:E; [|exact IH].
+  intro K. inversion K; subst x. clear K.
+  destruct g as [p neg a c b | b]; cbn in E.
+  - destruct (pre_holds e p); [|discriminate].
+    destruct (cmp_eval c (eval e a) (eval e b)) as [v|]; [|discriminate].
+    destruct (xorb neg v); discriminate.
+  - destruct b; try discriminate. destruct (e_times e); discriminate.
+Qed.
+
+Lemma coded_accept_inside : forall t o rows cols times,
+  check coded_checker (Some t) o rows cols times = Accept -> range_inside t rows cols times = true.
+Proof.
+  intros t o rows cols times. unfold check. cbn [target_first coded_checker].
+  set (e := {| e_tgt := t; e_out := o; e_rows := rows; e_cols := cols; e_times := times |}).
+  destruct (run_guards e (if is3d t then _ else _)) as [r|] eqn:E.
+  - intro H. subst r. exfalso. exact (run_guards_not_accept _ _ E).
+  - intros _. unfold coded_checker in E.
+    destruct t as [tr tc | tm tr tc]; cbn [is3d check2d check3d range_inside] in E |- *.
+    + rewrite run_guards_app in E.
+      rewrite (tgt_block_run e DRow BRows tr rows eq_refl eq_refl) in E.
+      rewrite (tgt_block_run e DCol BCols tc cols eq_refl eq_refl) in E.
+      destruct (sl_inside rows tr), (sl_inside cols tc); try discriminate. reflexivity.
+    + rewrite !run_guards_app in E.
+      rewrite (tgt_block_run e DRow BRows tr rows eq_refl eq_refl) in E.
+      rewrite (tgt_block_run e DCol BCols tc cols eq_refl eq_refl) in E.
+      destruct times as [n|].
+      * rewrite (tgt_block_run e DTime BTimes tm n eq_refl eq_refl) in E.
+        cbn [run_guards run_guard] in E. unfold e in E; cbn [e_times] in E.
+        destruct (sl_inside rows tr), (sl_inside cols tc), (sl_inside n tm); try discriminate. reflexivity.
+      * cbn [run_guards run_guard] in E. unfold e in E; cbn [e_times] in E.
+        destruct (sl_inside rows tr), (sl_inside cols tc); discriminate.
+Qed.
+
+(* the constructor: when the call sites pass the sizes of the TARGET (coded_calls), an accepted
+   target range lies inside the target data *)
+Lemma coded_ctor_inside : forall c sims,
+  ctor_check coded_checker coded_calls c sims = Accept -> target_inside c = true.
+Proof.
+  intros c sims H. unfold ctor_check in H.
+  apply coded_accept_inside in H.
+  unfold target_inside. destruct (fc_multi c); cbn in H; destruct (fc_trng c); cbn in H |- *; try exact H.
+  discriminate.
+Qed.
+
+(* ... hence a problem object that could be constructed at all (the harness' bypass switch off) has a
+   target range inside the target data: "fit ranges that exceed the target's size are rejected
+   before optimisation starts" *)
+Lemma coded_model_fit_inside : forall wc c sims,
+  fc_bypass c = false ->
+  model_fit coded_checker coded_calls wc c sims <> OCtor -> target_inside c = true.
+Proof.
+  intros wc c sims Hb H. unfold model_fit in H. rewrite Hb in H.
+  destruct (is3d (fc_trng c) && negb (wc_time_key wc && fc_multi c)); [exfalso; apply H; reflexivity|].
+  destruct (out_slices (fc_trng c)) as [[tm tr] tc].
+  destruct (ctor_check coded_checker coded_calls c sims) eqn:E.
+  - apply (coded_ctor_inside c sims E).
+  - exfalso; apply H; reflexivity.
+  - exfalso; apply H; reflexivity.
 Qed.
